@@ -11,4 +11,5 @@ func init() {
 		return nil
 	})
 	register("replay:C05", func(a Args, w *ev.Writer) error { return c05.Replay(a.In, w) })
+	register("replay:C05KEYS", func(a Args, w *ev.Writer) error { return c05.KeyOps(a.In, w, a.Shard, a.Shards) })
 }
